@@ -97,6 +97,30 @@ theorem envmap_agrees_lookup_nil_root (s : Stack) (k : Str)
   simp only [Stack.lookup, hr]
   cases lookupScopes s.scopes.reverse k <;> rfl
 
+/-- … and also when the root is a MAP of a string-keyed type (`map[string]any`, `map[string]string`, `map[string]int`, a map keyed by a named
+    string type): the keys of the root are names of the environment exactly as `Lookup` finds them — on every name whatsoever
+    (since fix 677a2b1; before it `EnvMap` only knew struct fields) -/
+theorem envmap_agrees_lookup_map_root (s : Stack) (k : Str) (mk : MapKind) (kvs : Scope)
+    (hwf : ∀ m ∈ s.scopes, Scope.WF m) (hkv : Scope.WF kvs) (hmk : mk ≠ .nonStrKey) (hk : k ≠ []) (hr : s.root = .map mk kvs) :
+    Stack.lookup goodCfg s k = .ok (Scope.get (s.envMap goodCfg) k) := by
+  have hpop : populateStructFields true [] (.map mk kvs) = kvs.foldl (fun acc (kv : Str × Val) => Scope.set acc kv.1 kv.2) [] := by
+    have : (mk == MapKind.nonStrKey) = false := by cases mk <;> simp_all
+    simp [populateStructFields, derefPtr, derefBound, this]
+  simp only [Stack.envMap, goodCfg, ↓reduceIte, hr, hpop]
+  rw [Stack.get_mergeScopes _ _ _ hwf]
+  simp only [Stack.lookup, hr]
+  cases lookupScopes s.scopes.reverse k with
+  | some v => rfl
+  | none =>
+    simp only []
+    rw [Scope.get_foldl_set kvs [] k hkv]
+    have hke : (k == []) = false := by simpa using hk
+    cases mk with
+    | nonStrKey => exact absurd rfl hmk
+    | anyMap => simp [resolveValue, hke, derefPtr, derefBound, Scope.get]; cases List.lookup k kvs <;> rfl
+    | strMap => simp [resolveValue, hke, derefPtr, derefBound, Scope.get]; cases List.lookup k kvs <;> rfl
+    | otherStrKey => simp [resolveValue, hke, derefPtr, derefBound, Scope.get]; cases List.lookup k kvs <;> rfl
+
 /-- well-formedness (unique keys per scope) is preserved by `set`, so it holds in every reachable stack -/
 theorem set_preserves_wf (below : List Scope) (top : Scope) (root : Val) (k : Str) (v : Val)
     (hwf : ∀ m ∈ below ++ [top], Scope.WF m) :
